@@ -916,6 +916,11 @@ def Struct(*members_: Union[DataType, Type[DataType]]) -> Type[StructType]:
             if isinstance(values, dict):
                 return b"".join(typ.encode(values[typ.name]) for typ in cls.members)
             else:
+                values = list(values)
+                if len(values) < len(cls.members):
+                    raise DataError(
+                        f"Not enough values to encode {len(cls.members)} struct members"
+                    )
                 return b"".join(
                     typ.encode(val) for typ, val in zip(cls.members, values)
                 )
